@@ -868,3 +868,29 @@ V("C15-revert-alias-restore", "C15", ["C15.R7"], [(SANITIZE, '''        expr = r
         )
 ''', '''        expr = expr.replace(alias, f"`{orig}`")
 ''')], "origin: revert 7f2b252")
+
+# ---------------------------------------------------------------------------------------------------- distilled from seeding wave 4
+CONTEXTPY = "formulaic/utils/context.py"
+NULLS = "formulaic/utils/null_handling.py"
+PANDASM = "formulaic/materializers/pandas.py"
+MSPEC = "formulaic/model_spec.py"
+PUTILS = "formulaic/parser/utils.py"
+FORMULAPY = "formulaic/formula.py"
+V("W4-call-after-literal", "C01", ["C01.W1"], [(TOKENIZE, "            if token.kind in (Token.Kind.NAME, Token.Kind.PYTHON):\n", "            if token and token.kind is not Token.Kind.OPERATOR:\n")], "wave 4: C01-u1")
+V("W4-call-after-literal-c15", "C15", ["C15.W1"], [(TOKENIZE, "            if token.kind in (Token.Kind.NAME, Token.Kind.PYTHON):\n", "            if token and token.kind is not Token.Kind.OPERATOR:\n")], "wave 4: C01-u1")
+V("W4-globals-before-locals", "C02", ["C02.W1"], [(CONTEXTPY, "LayeredMapping(frame.f_locals, frame.f_globals)", "LayeredMapping(frame.f_globals, frame.f_locals)")], "wave 4: C02-u3")
+V("W4-nulls-dtype-shortcut", "C06", ["C06.W1"], [(NULLS, "@find_nulls.register\ndef _(values: pandas.Series) -> set[int]:\n", "@find_nulls.register\ndef _(values: pandas.Series) -> set[int]:\n    if values.dtype.kind in \"iub\":\n        return set()\n")], "wave 4: C06-u3")
+V("W4-joint-inherits-materializer", "C07", ["C07.W1"], [(MSPEC, "            if not spec.materializer:\n                continue\n", "")], "wave 4: C07-u1")
+V("W4-record-through-series", "C08", ["C08.W1"], [(PANDASM, "                self.data = pandas.DataFrame(self.data, index=[0])", "                self.data = pandas.Series(self.data).to_frame().T")], "wave 4: C08-u3")
+V("W4-nested-state-dropped", "C09", ["C09.W1"], [(BASE, "                                    if nested_state:\n                                        state[k] = nested_state\n", "")], "wave 4: C09-u2")
+V("W4-encodes-into-input", "C18", ["C18.W1"], [(BASE, "                        if isinstance(values, dict):\n                            encoded = {}\n", "                        if isinstance(values, dict):\n                            encoded = values\n")], "wave 4: C18-u3")
+V("W4-contrast-wrap-reindexes", "C11", ["C11.W1"], [("formulaic/transforms/contrasts.py", "            encoded = pandas.DataFrame(\n                encoded,\n                columns=coding_column_names,\n            )", "            encoded = pandas.DataFrame(\n                encoded,\n                columns=coding_column_names,\n                index=dummies.index,\n            )")], "wave 4: C11-u2")
+V("W4-gap-args-unguarded", "C14", ["C14.W1"], [(PUTILS, "        rhs_token = (\n            rhs_token.args[0]  # type: ignore\n            if rhs_token.args\n            else Token(rhs_token.operator.symbol)\n        )", "        rhs_token = rhs_token.args[0]  # type: ignore")], "wave 4: C14-u1")
+V("W4-whitespace-ascii", "C15", ["C15.R6"], [(TOKENIZE, 'whitespace_chars: Pattern = re.compile(r"\\s"),', 'whitespace_chars: Pattern = re.compile(r"\\s", re.ASCII),')], "wave 4: C15-u1")
+V("W4-unpadded-substitution", "C15", ["C15.W2"], [(CODE, '                sanitized_expr.append(f" {new_name} ")', '                sanitized_expr.append(new_name)')], "wave 4: C15-u3")
+V("W4-collision-only-known-names", "C17", ["C17.W1"], [(CODE, "    while new_name in env:\n        suffix += 1\n        new_name = template.format(f\"{base_name}_{suffix}\")\n", "    while name in env and new_name in env:\n        suffix += 1\n        new_name = template.format(f\"{base_name}_{suffix}\")\n")], "wave 4: C17-u1")
+V("W4-union-into-first-part", "C17", ["C17.W2"], [(MSPEC, "        variables: set[Variable] = set()\n        self._map(lambda ms: variables.update(ms.required_variables))\n        return variables", "        parts = list(self._flatten())\n        variables = parts[0].required_variables if parts else set()\n        for ms in parts[1:]:\n            variables |= ms.required_variables\n        return variables")], "wave 4: C17-u2")
+V("W4-ordering-not-coerced", "C19", ["C19.W1"], [(FORMULAPY, "        ordering = OrderingMethod(ordering if ordering is not None else self.ordering)", "        ordering = ordering if ordering is not None else self.ordering")], "wave 4: C19-u3")
+V("W4-variables-after-rewrite", "C10", ["C10.W1"], [("formulaic/utils/stateful_transforms.py", "    if variables is not None:\n        variables.update(get_expression_variables(code, env, aliases))\n", ""),
+                                                      ("formulaic/utils/stateful_transforms.py", "    # Compile mutated AST\n", "    if variables is not None:\n        variables.update(get_expression_variables(code, env, aliases))\n\n    # Compile mutated AST\n")], "wave 4: C10-u2")
+V("W4-empty-matrix-untrimmed", "C06", ["C06.W2"], [(PANDASM, "            values = numpy.empty((self.nrows - len(drop_rows), 0))", "            values = numpy.empty((self.nrows, 0))")], "wave 4: C06-u2 (distilled)")
